@@ -134,7 +134,8 @@ pub fn sweep(prop: &str, cfg: &ServerCfg, reqs: &[Req3], aspects: &str, stats: &
             let frame = Frame { tx: if cfg.rtu { None } else { Some(*tx) }, unit: *unit, pdu: p.clone() };
             let expect = model.handle(*unit, p);
             let bytes = h.frame(*tx, *unit, p);
-            let obs = h.deliver_and_observe(&bytes);
+            let describe = || ("server-request".to_string(), format!("unit {unit} pdu {}", hex(p)), json!({"kind": "server", "property": prop, "scenario": scenario_of(cfg, &[(*tx, *unit, p.clone())], aspects)}));
+            let obs = crate::sim::watchdog::guard(&describe, || h.deliver_and_observe(&bytes));
             stats.class(&expect.class);
             stats.observe(&(obs.written.concat(), obs.calls.len()));
             let problems = judge_step(cfg.rtu, &frame, &expect, &obs);
@@ -514,7 +515,8 @@ pub fn explore_sequences(
                 .collect();
             st.evaluations += 1;
             st.traces += 1;
-            let problems = run_sequence(cfg, &frames, aspects, st);
+            let describe = || ("server-sequence".to_string(), format!("sequence {:?}", path.iter().map(|s| alpha[*s].0).collect::<Vec<_>>()), json!({"kind": "server", "property": prop, "scenario": scenario_of(cfg, &frames, aspects)}));
+            let problems = crate::sim::watchdog::guard(&describe, || run_sequence(cfg, &frames, aspects, st));
             if st.traces % 64 == 1 {
                 // determinism audit: same path twice, identical verdict
                 let mut tmp = Stats::default();
